@@ -6,6 +6,7 @@ import (
 	"strconv"
 
 	"github.com/gkampitakis/go-snaps/internal/vxrt"
+	krpretty "github.com/kr/pretty"
 	"github.com/tidwall/pretty"
 )
 
@@ -125,4 +126,33 @@ func H_C19_mixed() {
 	run(t2, false)
 	t2.end()
 	vxrt.Assert(len(t2.errors) == 0 && len(t2.logs) == 0 && vxrt.FSStamp() == stamp, "C19:mixed-replay-passes")
+}
+
+// H_C19_tabs: standalone values with the bytes the formatter's tabwriter rewrites (tab, vertical
+// tab, form feed): the file holds exactly the formatted value - what pretty.Sprint gives for the
+// value - and replays; a file holding the raw text instead would not be the formatted value.
+func H_C19_tabs() {
+	vxrt.CI(false)
+	vxrt.EnvFixed("NO_COLOR", "1")
+	dir := vxrt.Dir()
+	c := WithConfig(Dir(dir), Filename("f"))
+	v := []string{"a\tb", "name\tvalue\nlonger name\tv2", "x\vy", "p\fq", "plain", "tab at end\t"}[vxrt.Choice("value", 6)]
+	want := krpretty.Sprint(v)
+	keyed := vxrt.Bool("keyed")
+	for round := 0; round < 2; round++ {
+		t := vxNewT("TestT")
+		if keyed {
+			c.MatchSnapshot(t, v)
+		} else {
+			c.MatchStandaloneSnapshot(t, v)
+		}
+		t.end()
+		vxrt.Assert(len(t.errors) == 0 && len(t.logs) == 1-round, "C19:replay-passes")
+		if keyed {
+			got, _, err := vxRefPrev("[TestT - 1]", dir+"/f.snap")
+			vxrt.Assert(err == nil && got == want, "C01:stored-value-is-the-formatted-value")
+		} else {
+			vxrt.Assert(vxReadFile(dir+"/f_1.snap") == want, "C19:file-bytes-are-the-formatted-value")
+		}
+	}
 }
